@@ -293,3 +293,179 @@ Example xlsx_sheet_partial_nonvacuous :
   /\ x_last_row_has_data ws_ascii xw_good = true /\ x_last_col_has_data ws_ascii 2 xw_good = true
   /\ xlsx_sheet ws_ascii xw_good = [[VStr (s "name"); VStr (s "qty")]; [VStr (s "x"); VInt 7]].
 Proof. repeat split; try (vm_compute; reflexivity). lia. Qed.
+
+(* ================================================================== C. XLS *)
+
+Definition l_rect (c : nat) (g : list (list lcell)) : bool :=
+  forallb (fun r => Nat.eqb (length r) c) g.
+
+Lemma dict_set_fresh k v d : ~ In k (map fst d) -> dict_set k v d = d ++ [(k, v)].
+Proof.
+  induction d as [|[k' v'] d IH]; intro H; [reflexivity|].
+  cbn [dict_set map fst In app] in *.
+  destruct (str_eqb k k') eqn:E.
+  - apply str_eqb_eq in E. subst. exfalso; apply H; left; reflexivity.
+  - rewrite IH; [reflexivity|]. intro Hin; apply H; right; exact Hin.
+Qed.
+
+(* the dict built for one row: generalised over the accumulator and the column counter *)
+Lemma xls_row_dict_nodup : forall cells hs col d,
+  length hs = length cells -> nodup_str hs = true ->
+  (forall h, In h hs -> ~ In h (map fst d)) ->
+  xls_row_dict hs cells col d = d ++ combine hs (map lc_native cells).
+Proof.
+  induction cells as [|c cs IH]; intros hs col d Hlen Hnd Hdis.
+  - destruct hs; [|discriminate]. cbn [xls_row_dict map combine]. rewrite app_nil_r. reflexivity.
+  - destruct hs as [|h hs]; [discriminate|].
+    cbn [xls_row_dict tl]. cbv zeta.
+    rewrite dict_set_fresh by (apply Hdis; left; reflexivity).
+    cbn [nodup_str] in Hnd. apply andb_true_iff in Hnd as [Hn1 Hn2]. apply negb_true_iff in Hn1.
+    rewrite IH.
+    + rewrite <- app_assoc. reflexivity.
+    + cbn [List.length] in Hlen. lia.
+    + exact Hn2.
+    + intros h' Hin. rewrite map_app, in_app_iff. cbn [map fst In]. intros [H|[H|[]]].
+      * apply (Hdis h'); [right; exact Hin | exact H].
+      * subst h'. apply mem_str_In in Hin. congruence.
+Qed.
+
+Lemma combine_keys {A B} (l : list A) (l' : list B) :
+  length l = length l' -> map fst (combine l l') = l.
+Proof.
+  revert l'; induction l as [|a l IH]; intros [|b l'] H; try discriminate; [reflexivity|].
+  cbn [combine map fst]. rewrite IH; [reflexivity|]. cbn [List.length] in H. lia.
+Qed.
+
+Lemma dict_get_combine : forall hs vs,
+  length hs = length vs -> nodup_str hs = true ->
+  map (fun h => dict_get h (combine hs vs)) hs = vs.
+Proof.
+  induction hs as [|h hs IH]; intros [|v vs] Hlen Hnd; try discriminate; [reflexivity|].
+  cbn [nodup_str] in Hnd. apply andb_true_iff in Hnd as [Hn1 Hn2]. apply negb_true_iff in Hn1.
+  cbn [combine map]. f_equal.
+  - unfold dict_get. cbn [assoc]. rewrite str_eqb_refl. reflexivity.
+  - rewrite <- (IH vs) at 2; [|cbn [List.length] in Hlen; lia | exact Hn2].
+    apply map_ext_in. intros h' Hin. unfold dict_get. cbn [assoc].
+    destruct (str_eqb h' h) eqn:E; [|reflexivity].
+    apply str_eqb_eq in E. subst h'. apply mem_str_In in Hin. congruence.
+Qed.
+
+Theorem xls_sheet_partial : forall g r0 rest c,
+  g = r0 :: rest -> rest <> [] -> l_rect c g = true ->
+  nodup_str (map lc_header r0) = true ->
+  xls_sheet_table g = lgrid_spec g.
+Proof.
+  intros g r0 rest c -> Hne Hr Hnd.
+  unfold l_rect in Hr. cbn [forallb] in Hr. apply andb_true_iff in Hr as [Hr0 Hrest].
+  apply Nat.eqb_eq in Hr0. rewrite forallb_forall in Hrest.
+  set (hs := map lc_header r0) in *.
+  assert (Hhs : length hs = c) by (unfold hs; rewrite map_length; exact Hr0).
+  assert (Hdata : xls_sheet_data (r0 :: rest) = map (fun r => combine hs (map lc_native r)) rest).
+  { unfold xls_sheet_data. fold hs. apply map_ext_in. intros r Hin.
+    specialize (Hrest r Hin). apply Nat.eqb_eq in Hrest.
+    rewrite (xls_row_dict_nodup r hs 0 []); [reflexivity | lia | exact Hnd | intros h _ []]. }
+  unfold xls_sheet_table. rewrite Hdata.
+  destruct rest as [|r1 rest']; [congruence|].
+  unfold xls_get_table, lgrid_spec.
+  set (data := map (fun r => combine hs (map lc_native r)) (r1 :: rest')).
+  cbn [map] in data. subst data. cbv beta iota zeta.
+  unfold dict_keys.
+  assert (Hk : map fst (combine hs (map lc_native r1)) = hs).
+  { apply combine_keys. rewrite map_length.
+    specialize (Hrest r1 (or_introl eq_refl)). apply Nat.eqb_eq in Hrest. lia. }
+  rewrite Hk. f_equal.
+  - unfold hs. rewrite map_map. reflexivity.
+  - change (combine hs (map lc_native r1) :: map (fun r => combine hs (map lc_native r)) rest')
+      with (map (fun r => combine hs (map lc_native r)) (r1 :: rest')).
+    rewrite map_map. apply map_ext_in. intros r Hin.
+    specialize (Hrest r Hin). apply Nat.eqb_eq in Hrest.
+    apply dict_get_combine; [rewrite map_length; lia | exact Hnd].
+Qed.
+
+(* A5: the dimensions reported for an XLS sheet *)
+Theorem xls_get_dim_rect : forall g r0 rest r c,
+  g = r0 :: rest -> length g = r -> (2 <= r)%nat -> l_rect c g = true ->
+  nodup_str (map lc_header r0) = true ->
+  xls_get_dim (xls_sheet_data g) = (r, c).
+Proof.
+  intros g r0 rest r c Hg Hl Hr2 Hrect Hnd.
+  assert (Hne : rest <> []).
+  { intro E. subst. cbn in Hr2. lia. }
+  pose proof (xls_sheet_partial g r0 rest c Hg Hne Hrect Hnd) as Ht.
+  unfold xls_sheet_table in Ht. unfold xls_get_dim. cbv zeta. rewrite Ht.
+  change (data_get_dim (lgrid_spec g) = (r, c)).
+  subst g. unfold l_rect in Hrect. cbn [forallb] in Hrect.
+  apply andb_true_iff in Hrect as [H0 Hrest].
+  apply data_get_dim_rect.
+  - cbn [lgrid_spec List.length] in *. rewrite map_length. exact Hl.
+  - lia.
+  - cbn [lgrid_spec forallb]. rewrite map_length, H0. cbn [andb].
+    rewrite forallb_forall in *. intros x Hx. apply in_map_iff in Hx as [y [<- Hy]].
+    rewrite map_length. apply Hrest. exact Hy.
+Qed.
+
+(* ---- C2 refutations *)
+Definition lw_dup : list (list lcell) :=
+  [[{| lc_native := VStr (s "a"); lc_header := s "a" |}; {| lc_native := VStr (s "a"); lc_header := s "a" |}];
+   [{| lc_native := VInt 1; lc_header := s "1" |}; {| lc_native := VInt 2; lc_header := s "2" |}]].
+Example xls_duplicate_header_value :
+  xls_sheet_table lw_dup = [[VStr (s "a")]; [VInt 2]]
+  /\ lgrid_spec lw_dup = [[VStr (s "a"); VStr (s "a")]; [VInt 1; VInt 2]]
+  /\ xls_get_dim (xls_sheet_data lw_dup) = (2%nat, 1%nat).
+Proof. repeat split; vm_compute; reflexivity. Qed.
+Theorem xls_duplicate_header_refuted :
+  exists g r0 rest, g = r0 :: rest /\ rest <> [] /\ l_rect 2 g = true
+                    /\ xls_sheet_table g <> lgrid_spec g.
+Proof.
+  exists lw_dup. eexists. eexists. split; [reflexivity|].
+  split; [discriminate|]. split; [vm_compute; reflexivity|].
+  vm_compute. discriminate.
+Qed.
+
+Definition lw_header_only : list (list lcell) :=
+  [[{| lc_native := VStr (s "a"); lc_header := s "a" |}; {| lc_native := VStr (s "b"); lc_header := s "b" |}]].
+Example xls_header_only_value :
+  xls_sheet_table lw_header_only = []
+  /\ lgrid_spec lw_header_only = [[VStr (s "a"); VStr (s "b")]]
+  /\ xls_get_dim (xls_sheet_data lw_header_only) = (0%nat, 0%nat).
+Proof. repeat split; vm_compute; reflexivity. Qed.
+Theorem xls_header_only_refuted :
+  exists g r0, g = [r0] /\ l_rect 2 g = true /\ nodup_str (map lc_header r0) = true
+               /\ xls_sheet_table g <> lgrid_spec g.
+Proof.
+  exists lw_header_only. eexists. split; [reflexivity|].
+  split; [vm_compute; reflexivity|]. split; [vm_compute; reflexivity|].
+  vm_compute. discriminate.
+Qed.
+
+(* ---- C3 non-vacuity *)
+Definition lw_good : list (list lcell) :=
+  [[{| lc_native := VStr (s "name"); lc_header := s "name" |}; {| lc_native := VStr (s "qty"); lc_header := s "qty" |}];
+   [{| lc_native := VStr (s "x"); lc_header := s "x" |}; {| lc_native := VInt 7; lc_header := s "7" |}]].
+Example xls_sheet_partial_nonvacuous :
+  (exists r0 rest, lw_good = r0 :: rest /\ rest <> [] /\ l_rect 2 lw_good = true
+                   /\ nodup_str (map lc_header r0) = true)
+  /\ xls_sheet_table lw_good = [[VStr (s "name"); VStr (s "qty")]; [VStr (s "x"); VInt 7]]
+  /\ xls_get_dim (xls_sheet_data lw_good) = (2%nat, 2%nat).
+Proof.
+  split.
+  - eexists. eexists. split; [reflexivity|]. split; [discriminate|].
+    split; vm_compute; reflexivity.
+  - split; vm_compute; reflexivity.
+Qed.
+
+Print Assumptions data_get_dim_is_shape.
+Print Assumptions xls_get_dim_is_shape.
+Print Assumptions max_len_rect.
+Print Assumptions data_get_dim_rect.
+Print Assumptions xls_get_dim_rect.
+Print Assumptions xlsx_sheet_partial.
+Print Assumptions xlsx_empty_header_refuted.
+Print Assumptions xlsx_title_row_refuted.
+Print Assumptions xlsx_typed_header_refuted.
+Print Assumptions xlsx_date_header_refuted.
+Print Assumptions xlsx_sheet_partial_nonvacuous.
+Print Assumptions xls_sheet_partial.
+Print Assumptions xls_duplicate_header_refuted.
+Print Assumptions xls_header_only_refuted.
+Print Assumptions xls_sheet_partial_nonvacuous.
